@@ -35,6 +35,7 @@ fn gens(tier: Tier) -> Vec<Gen> {
         Gen { name: "random", count: tier.pick(1_500, 200_000), exhaustive: false, run: run_random },
         Gen { name: "large", count: tier.pick(120, 4_000), exhaustive: false, run: run_large },
         Gen { name: "textreader-ioerr", count: textreader_count(), exhaustive: true, run: run_textreader },
+        Gen { name: "json-readers", count: json_count(), exhaustive: true, run: run_json },
     ]
 }
 
@@ -278,7 +279,13 @@ pub fn run_case(ctx: &mut Ctx, rng: &mut Rng, c: &Case) {
     if let Some(pv) = prefix_violation {
         ctx.violation(format!("fabricated-bytes:{}:{}", base.framing.name(), exp.state), descr(&format!("bytes handed out are not a prefix of the payload really sent: {pv}")));
     }
-    let is_text = matches!(c.plan, ReadPlan::TextUtf8);
+    let is_text = matches!(c.plan, ReadPlan::TextUtf8 | ReadPlan::Json(_));
+    if let (ReadPlan::Json(_), End::Clean, true) = (&c.plan, &first_end, exp.complete) {
+        let want = serde_json::from_slice::<serde_json::Value>(&exp.data).ok().map(|v| serde_json::to_vec(&v).unwrap_or_default());
+        if want.as_deref() != Some(&delivered_all[..]) {
+            ctx.violation("json-value-differs", descr(&format!("the value parsed from a complete body is {} but the body holds {}", show(&delivered_all), show(&exp.data))));
+        }
+    }
     match (&first_end, exp.must_err, exp.complete) {
         (End::Clean, true, _) => ctx.violation(
             format!("clean-end-on-damaged-frame:{}:{}", base.framing.name(), exp.state),
@@ -292,6 +299,10 @@ pub fn run_case(ctx: &mut Ctx, rng: &mut Rng, c: &Case) {
                     descr(&format!("clean end but {} bytes delivered instead of {}", delivered_all.len(), exp.data.len())),
                 );
             }
+        }
+        (End::Error(_), false, true) if matches!(c.plan, ReadPlan::Json(_)) && serde_json::from_slice::<serde_json::Value>(&exp.data).is_err() => {
+            // a complete (close-delimited) body that is not a JSON text: the parse error is right
+            ctx.count("json_parse_errors_on_non_json_bodies", 1);
         }
         (End::Error(e), false, true) => {
             if !transient_error {
@@ -599,11 +610,62 @@ fn textreader_count() -> u64 {
 }
 
 fn run_textreader(ctx: &mut Ctx, rng: &mut Rng, index: u64) {
+    if crate::framework::miri_mode() {
+        // encoding_rs cannot be interpreted by Miri (inline assembly in its CPU feature probe)
+        ctx.gray();
+        return;
+    }
     let (bi, idx) = locate(index, textreader_per_base);
     let base = text_base(bi);
     let buf = [1usize, 2, 3][(idx % 3) as usize];
     let (kind, sticky) = KINDS[((idx / 3) % 4) as usize];
     let at = base.head_len + (idx / 12) as usize;
     let c = Case { base, fault: Fault::Err { at, kind, sticky }, seg_class: (idx % 2) as u8, plan: ReadPlan::TextReader { sizes: vec![buf] }, extra_reads: 2 + (idx % 3) as usize };
+    run_case(ctx, rng, &c);
+}
+
+// ---- the JSON convenience readers are body readers too: a complete JSON text inside an incomplete
+// ---- frame is an incomplete body ----------------------------------------------------------------
+
+fn json_base(i: usize) -> Base {
+    let framing = Framing::ALL[i % 3];
+    let text: &[u8] = [&br#"{"a":[1,2,"x"],"b":{"c":null}}"#[..], br#"["one",{"k":true}]"#, br#""just a string""#][(i / 3) % 3];
+    // white space after the value is part of the body and of the announced length
+    let pad: &[u8] = [&b""[..], b"\r\n    \r\n"][(i / 9) % 2];
+    let mut payload = text.to_vec();
+    payload.extend_from_slice(pad);
+    let sizes = if framing == Framing::Chunked {
+        if pad.is_empty() { vec![text.len() / 2, text.len() - text.len() / 2] } else { vec![text.len(), pad.len()] }
+    } else {
+        vec![]
+    };
+    let b = build_response("HTTP/1.1 200 OK", &[("Content-Type".into(), b"application/json; charset=utf-8".to_vec())], framing, &payload, &sizes, &[Default::default()], b"");
+    Base { framing, payload, wire: b.wire, head_len: b.head_len, frame_end: b.frame_end }
+}
+
+fn json_per_base(i: usize) -> u64 {
+    let b = json_base(i);
+    // every cut from the end of the head to the end of the frame, plus the intact response,
+    // x {json, json_utf8} x {whole, bytewise}
+    ((b.frame_end - b.head_len) as u64 + 2) * 4
+}
+
+fn json_count() -> u64 {
+    (0..18).map(json_per_base).sum()
+}
+
+fn run_json(ctx: &mut Ctx, rng: &mut Rng, index: u64) {
+    let (bi, idx) = locate(index, json_per_base);
+    let base = json_base(bi);
+    let utf8 = idx % 2 == 1;
+    if crate::framework::miri_mode() && !utf8 {
+        // json() goes through encoding_rs, which Miri cannot interpret
+        ctx.gray();
+        return;
+    }
+    let k = base.head_len + (idx / 4) as usize;
+    let fault = if k > base.frame_end { Fault::None } else { Fault::Cut(k) };
+    ctx.count("json_reader_histories", 1);
+    let c = Case { base, fault, seg_class: ((idx / 2) % 2) as u8, plan: ReadPlan::Json(utf8), extra_reads: 0 };
     run_case(ctx, rng, &c);
 }
